@@ -77,7 +77,10 @@ class Prop(common.PropertyCheck):
             for ops in seqs:
                 vals = [[rng.randrange(0, 64), rng.randrange(0, 64)] for _ in ops]
                 for how in DUPS:
-                    yield {'k': 'dup', 'spec': spec, 'ops': ops, 'vals': vals, 'how': how}
+                    c = {'k': 'dup', 'spec': spec, 'ops': ops, 'vals': vals, 'how': how}
+                    if si % 3 == 2:
+                        c['oddpath'] = 1 + len(ops)
+                    yield c
         for _ in range(self.budget(30, 300)):
             sp = fcsgen.gen_spec(rng, max_events=6, max_par=3)
             if sp['datatype'] == 'I':
@@ -94,6 +97,12 @@ class Prop(common.PropertyCheck):
 
     def build_state(self, case):
         d, path = samples.load(case['spec'])
+        if case.get('oddpath'):
+            # the same file reached through a path that is not in normal form: the sample remembers the path it was given
+            import os
+            head, tail = os.path.split(path)
+            odd = [os.path.join(head, '.', tail), head + os.sep + os.sep + tail, os.path.join(head, os.path.basename(head), '..', tail) if False else os.path.join(head, '.', '.', tail)][case['oddpath'] % 3]
+            d = FlowCal.io.FCSData(odd)
         for op, v in zip(case['ops'], case['vals']):
             d = apply_op(d, op, v)
         return d
@@ -132,6 +141,18 @@ class Prop(common.PropertyCheck):
                 shares = bool(np.shares_memory(x, y))
                 ind[side] = {'state_same': before['state'] == after['state'], 'array_same': before['array'] == after['array'], 'shares': shares}
             res['indep'] = ind
+            # a second duplicate, taken after the keywords of a first duplicate were edited, still equals the original
+            try:
+                d2 = self.build_state(case)
+                base = fpm.sample_fp(d2)
+                e1 = duplicate(d2, case['how'])
+                if isinstance(e1, FlowCal.io.FCSData):
+                    e1.text['VERIF2'] = 'edited'; e1.analysis['VERIF2'] = 'edited'
+                e2 = duplicate(d2, 'copy' if case['how'] == 'view' else case['how'])
+                fp2 = fpm.sample_fp(e2)
+                res['second_dup_equal'] = bool(fp2['state'] == base['state'] and fp2['array'] == base['array'] and fpm.sample_fp(d2)['state'] == base['state'])
+            except Exception as ex:
+                res['second_dup_equal'] = 'err:' + type(ex).__name__ + ':' + str(ex)[:60]
             return res
         except Exception as ex:
             return {'err': type(ex).__name__ + ':' + str(ex)[:100]}
@@ -218,6 +239,9 @@ class Prop(common.PropertyCheck):
                 return '%s after %s: changing the metadata of the %s changed the %s' % (how, case['ops'], 'duplicate' if side == 'dup' else 'original', other)
             if how != 'view' and (ind[side]['shares'] or not ind[side]['array_same']):
                 return '%s after %s: event buffers are shared' % (how, case['ops'])
+        if impl.get('second_dup_equal') is not True and 'second_dup_equal' in impl:
+            return '%s after %s: a second duplicate, taken after the keywords of a first duplicate were edited, differs from the original (%s)' % (
+                how, case['ops'], impl['second_dup_equal'])
         return None
 
     def model_request(self, case, impl):
